@@ -105,9 +105,54 @@ def drive_stream(ctx, tlc_out, tag, pairs, agg, cmd="stream", extra=()):
     return res
 
 
+TOK_ALPHA = ["LF", "CR", "COLON", "data", "id", "x", "BOM", "SP"]
+
+
+def tlc_tokenizer(ctx, name, maxlen, *, bom=False, nxt=False, eager=False, timeout=1800):
+    consts = dict(Alphabet=toks(*TOK_ALPHA), MaxLen=maxlen, AsFoundBOM=bom, AsFoundNext=nxt, EagerFirst=eager)
+    d = core.write_mc(ctx, name, "Tokenizer", consts, invariants=["Refines"])
+    return core.run_tlc(ctx, d, name, timeout=timeout, expect_violation=(bom or nxt or eager))
+
+
+def tokenizer_layer(ctx, agg, q):
+    """The implementation-shaped layer: refinement Tokenizer => StreamCore for every input and every segmentation,
+    its three sensitivity variants (the pinned tree's D1 and D5, the seeded change C01-a), and trace validation of
+    the chunks the real scanner hands out."""
+    tlc_tokenizer(ctx, "TokRefines", 5 if q else 6)
+    for nm, kw in (("TokD1", dict(bom=True)), ("TokD5", dict(nxt=True)), ("TokEager", dict(eager=True))):
+        r = tlc_tokenizer(ctx, nm, 4 if nm != "TokEager" else 5, **kw)
+        if r.violated != "Refines":
+            raise core.ToolFailure("sensitivity: %s should violate Refines, TLC reported %r" % (nm, r.violated))
+    r = tlc_stream(ctx, "StreamGenTok", TOK_ALPHA + ["retry", "d1"], [], 4 if q else 5, machine=False)
+    beh = os.path.join(ctx.work, "beh-tok.ndjson")
+    core.extract_exports(r.stdout_path, beh, dedupe=True)
+    resp = os.path.join(ctx.work, "res-tok.json")
+    cases = os.path.join(ctx.work, "cases-tok.ndjson")
+    core.run_driver(ctx, ["chunks", "-in", beh, "-out", resp, "-table", bytes_table(ctx), "-cases", cases, "-every", 3 if q else 1, "-segs", 8,
+                           "-alphabet", ",".join(TOK_ALPHA + ["retry", "d1"])], timeout=1800)
+    res = core.read_json(resp)
+    os.remove(beh)
+    for v in res["violations"]:
+        core.report(ctx, v["what"], v["detail"], v["signature"])
+    consts = dict(AsFoundBOM=False, AsFoundNext=False, EagerFirst=False)
+    d = core.write_mc(ctx, "TokTrace", "TokenizerTrace", consts, spec="Spec", constraint="HighWater", postcondition="Accepted")
+    r = core.run_tlc(ctx, d, "TokTrace", workers=1, timeout=1800, env={"CASES": cases, "JAVA_TOOL_OPTIONS": "-Dtlc2.tool.queue.IStateQueue=StateDeque"})
+    if r.violated is not None:
+        txt = open(r.stdout_path, errors="replace").read()
+        i = txt.find("REJECTED")
+        j = txt.find("Error:", i)
+        rej = " ".join(txt[max(0, i - 4):j if j > 0 else i + 2000].split())[:2000]
+        core.report(ctx, "TokenizerTrace.tla rejects the chunks / events of the real parser: " + rej[:900], {"trace_spec": "TokenizerTrace", "rejected": rej}, "stream:tokenizer-trace")
+    agg["notes"]["tokenizer_trace_cases"] = res["notes"].get("trace_cases", 0)
+    agg["evaluations"] += res["evaluations"]
+    agg["behaviours"] += res["notes"].get("trace_cases", 0)
+    core.log("%s/tokenizer: %d trace cases validated" % (ctx.pid, res["notes"].get("trace_cases", 0)))
+
+
 def run_C01(ctx):
     agg = dict(evaluations=0, distinct=0, behaviours=0, samples=[], n_violations=0, notes={})
     q = ctx.quick
+    tokenizer_layer(ctx, agg, q)
     # 1. the interpretation as a state machine: invariants on every intermediate state, all three modes
     tlc_stream(ctx, "StreamMachine", CORE13[:9] + ["NUL"], [], 3 if q else 4, machine=True)
     # 2. exhaustive token strings -> both entry points, all segmentations
@@ -143,6 +188,8 @@ def run_C01(ctx):
         "token-level interpretation equals byte-level interpretation under the side conditions ASSUMEd (and checked by TLC) in Bytes.tla",
         "invalid UTF-8 is compared byte for byte (go-sse does not decode; no property asks for U+FFFD)",
         "which error ends a stream cut by a read error, and Connect returning nil, are decided by C11, not here",
+        "the tokenizer layer (TokenizerCore.tla) is checked to refine StreamCore for all inputs of <= 5/6 tokens over 8 tokens and all segmentations at token boundaries; "
+        "the chunks the real scanner hands out (verif hook) are validated against it",
     ])
 
 
